@@ -2,6 +2,7 @@
 package mount
 
 import (
+	"errors"
 	"io"
 	"path"
 	"strings"
@@ -216,6 +217,11 @@ func (fs *FS) rename(oldname, newname string) error {
 	_, err = io.Copy(newFileWriter, oldFile)
 	if err != nil {
 		_ = hackpadfs.Remove(newMount, newSubPath)
+		return err
+	}
+	// an existing destination file keeps its own mode when opened, carry the source's mode over like a real rename
+	err = hackpadfs.ChmodFile(newFile, oldInfo.Mode())
+	if err != nil && !errors.Is(err, hackpadfs.ErrNotImplemented) {
 		return err
 	}
 	return hackpadfs.Remove(oldMount, oldSubPath)
